@@ -1,11 +1,15 @@
 package envelope
 
 import (
+	"bytes"
 	"crypto/sha256"
+	"errors"
 	"hash"
 	"io"
 
 	"github.com/ipfs/go-cid"
+	"github.com/ipld/go-ipld-prime"
+	"github.com/ipld/go-ipld-prime/codec/dagcbor"
 	"github.com/multiformats/go-multibase"
 	"github.com/multiformats/go-multicodec"
 	"github.com/multiformats/go-multihash"
@@ -29,6 +33,30 @@ func CIDFromBytes(b []byte) (cid.Cid, error) {
 	}.Sum(b)
 }
 
+// ErrNotCanonical is returned when sealed data is not the canonical DAG-CBOR
+// encoding of the envelope it decodes to.
+var ErrNotCanonical = errors.New("sealed token is not canonically encoded")
+
+// CheckCanonical verifies that data is exactly the canonical DAG-CBOR encoding
+// of the IPLD data it carries. The DAG-CBOR decoder is lenient (non-minimal
+// lengths, indefinite-length items, unsorted map keys, ignored tags, ...) and
+// the signature is verified over the re-encoded payload, so without this check
+// several byte strings, hence several CIDs, would be accepted for one token.
+func CheckCanonical(data []byte) error {
+	node, err := ipld.Decode(data, dagcbor.Decode)
+	if err != nil {
+		return err
+	}
+	canonical, err := ipld.Encode(node, dagcbor.Encode)
+	if err != nil {
+		return err
+	}
+	if !bytes.Equal(canonical, data) {
+		return ErrNotCanonical
+	}
+	return nil
+}
+
 var _ io.Reader = (*CIDReader)(nil)
 
 // CIDReader wraps an io.Reader and includes a hash.Hash that is
@@ -37,6 +65,7 @@ type CIDReader struct {
 	hash hash.Hash
 	r    io.Reader
 	err  error
+	buf  bytes.Buffer // everything read so far, for CheckCanonical
 }
 
 // NewCIDReader initializes a hash.Hash to calculate the CID's hash and
@@ -71,8 +100,14 @@ func (r *CIDReader) Read(p []byte) (n int, err error) {
 	}
 
 	_, _ = r.hash.Write(p[:n])
+	_, _ = r.buf.Write(p[:n])
 
 	return
+}
+
+// CheckCanonical is CheckCanonical applied to the bytes read so far.
+func (r *CIDReader) CheckCanonical() error {
+	return CheckCanonical(r.buf.Bytes())
 }
 
 var _ io.Writer = (*CIDWriter)(nil)
